@@ -9,9 +9,11 @@ import (
 	"math/big"
 	"sort"
 	"strings"
+	"time"
 
 	v1 "k8s.io/api/core/v1"
 	apiequality "k8s.io/apimachinery/pkg/api/equality"
+	metav1 "k8s.io/apimachinery/pkg/apis/meta/v1"
 	"k8s.io/apimachinery/pkg/api/resource"
 	utilfeature "k8s.io/apiserver/pkg/util/feature"
 	helpers "k8s.io/component-helpers/resource"
@@ -101,8 +103,18 @@ type podT struct {
 	pal      rlT
 	claims   []rlT
 }
+// the pod's lifecycle position, mirroring C15.Model.pod_meta
+type metaT struct {
+	phase    int64 // 0 "", 1 Pending, 2 Running, 3 Succeeded, 4 Failed, 5 Unknown
+	node     bool  // spec.nodeName set
+	deleting bool  // metadata.deletionTimestamp set
+}
+
+var phases = []v1.PodPhase{"", v1.PodPending, v1.PodRunning, v1.PodSucceeded, v1.PodFailed, v1.PodUnknown}
+
 type caseT struct {
 	ippvs, plr, ippl, dra bool
+	meta                  metaT
 	pod                   podT
 }
 
@@ -115,7 +127,8 @@ func encRlT(l rlT) []int64 {
 }
 
 func (c caseT) tokens() []int64 {
-	out := []int64{vh.B(c.ippvs), vh.B(c.plr), vh.B(c.ippl), vh.B(c.dra), int64(len(nameTable))}
+	out := []int64{vh.B(c.ippvs), vh.B(c.plr), vh.B(c.ippl), vh.B(c.dra),
+		c.meta.phase, vh.B(c.meta.node), vh.B(c.meta.deleting), int64(len(nameTable))}
 	for _, ni := range nameTable {
 		out = append(out, ni.id, vh.B(ni.tracked), vh.B(ni.plsup))
 	}
@@ -184,6 +197,10 @@ func (r *tokReader) rl() rlT {
 func decode(in []int64) caseT {
 	r := &tokReader{t: in}
 	c := caseT{ippvs: r.flag(), plr: r.flag(), ippl: r.flag(), dra: r.flag()}
+	c.meta = metaT{phase: r.next(), node: r.flag(), deleting: r.flag()}
+	if c.meta.phase < 0 || int(c.meta.phase) >= len(phases) {
+		panic("phase out of range")
+	}
 	n := int(r.next())
 	if n != len(nameTable) {
 		panic("name table length")
@@ -304,11 +321,21 @@ func buildStatus(x statT) v1.ContainerStatus {
 	return s
 }
 
-func buildPod(p podT) *v1.Pod {
+var deletionTime = metav1.NewTime(time.Date(2025, 1, 2, 3, 4, 5, 0, time.UTC))
+
+func buildPod(p podT, m metaT) *v1.Pod {
 	pod := &v1.Pod{}
 	pod.Name = "p"
 	pod.Namespace = "ns"
 	pod.UID = "uid-p"
+	pod.Status.Phase = phases[m.phase]
+	if m.node {
+		pod.Spec.NodeName = "n1"
+	}
+	if m.deleting {
+		t := deletionTime
+		pod.DeletionTimestamp = &t
+	}
 	for _, c := range p.cs {
 		pod.Spec.Containers = append(pod.Spec.Containers, buildContainer(c))
 	}
@@ -450,6 +477,7 @@ func encList(l v1.ResourceList) []int64 {
 
 type results struct {
 	vc, noinit, rq, irq *api.Resource
+	bestEffort          bool
 	up                  v1.ResourceList
 	upRes               *api.Resource
 	kubeMilliCPU        int64 // kube-scheduler's own PodInfo.CalculateResource
@@ -458,20 +486,20 @@ type results struct {
 
 func compute(c caseT) results {
 	setGates(c)
-	pod := buildPod(c.pod)
+	pod := buildPod(c.pod, c.meta)
 	before := pod.DeepCopy()
 	var r results
 	r.vc = api.GetPodResourceRequest(pod)
 	r.noinit = api.GetPodResourceWithoutInitContainers(pod)
 	ti := api.NewTaskInfo(pod)
-	r.rq, r.irq = ti.Resreq, ti.InitResreq
+	r.rq, r.irq, r.bestEffort = ti.Resreq, ti.InitResreq, ti.BestEffort
 	opts := upstreamOpts()
 	r.up = helpers.PodRequests(pod, opts)
 	r.upRes = api.NewResource(r.up)
 	if !apiequality.Semantic.DeepEqual(before, pod) {
 		panic("the pod was modified by a request computation")
 	}
-	if r.vc.MaxTaskNum != 0 || r.rq.MaxTaskNum != 0 {
+	if r.vc.MaxTaskNum != 0 || r.rq.MaxTaskNum != 0 || r.irq.MaxTaskNum != 0 {
 		panic("MaxTaskNum leaked into a pod request")
 	}
 	// the oracle's options must be the ones kube-scheduler itself uses: its
@@ -497,7 +525,8 @@ func run(sel int, in []int64) []int64 {
 	}
 	r := compute(decode(in))
 	var out []int64
-	for _, x := range [][]int64{tag(1), encRes(r.vc), tag(2), encRes(r.noinit), tag(3), encList(r.up), tag(4), encRes(r.upRes)} {
+	for _, x := range [][]int64{tag(1), encRes(r.vc), tag(2), encRes(r.noinit), tag(3), encList(r.up), tag(4), encRes(r.upRes),
+		tag(5), encRes(r.rq), tag(6), encRes(r.irq), tag(7), {vh.B(r.bestEffort)}} {
 		out = append(out, x...)
 	}
 	return out
@@ -610,7 +639,8 @@ func laws(sel int, in, got []int64, law func(lsel int, lin []int64, sig string))
 		law(102, cat(encRes(r.upRes), encRes(r.vc), encRes(r.rq), encRes(r.irq)), "")
 		return
 	}
-	law(101, cat(encRes(r.upRes), encRes(r.vc), encRes(r.rq), encRes(r.irq)), "")
+	// what NewTaskInfo stores for this pod in its phase: Resreq == InitResreq == upstream + pods, BestEffort == empty
+	law(101, cat(encRes(r.upRes), encRes(r.vc), encRes(r.rq), encRes(r.irq), []int64{vh.B(r.bestEffort)}), "")
 	// the same in kube-scheduler's units, not going through volcano's NewResource
 	law(103, cat([]int64{r.kubeMilliCPU, r.kubeMemory}, encRes(r.vc), encRes(r.rq)), "")
 }
@@ -877,7 +907,30 @@ func describe(c caseT) any {
 		"containers": len(p.cs), "inits": shape.String(), "statuses": len(p.cst) + len(p.ist),
 		"overhead": len(p.oh) > 0, "podLevel": p.hasPl, "podStatusResources": p.hasPst, "claims": len(p.claims),
 		"conditions": fmt.Sprint(p.conds),
+		"phase":      phaseName(c.meta.phase), "nodeName": c.meta.node, "deleting": c.meta.deleting,
 	}
+}
+
+func phaseName(ph int64) string {
+	if ph == 0 {
+		return "nophase"
+	}
+	return string(phases[ph])
+}
+
+// lifecycle position: mostly Pending (unscheduled / bound) and Running, the
+// terminal and unknown phases less often; a Running pod is normally bound but
+// the odd combinations (Running without nodeName, Succeeded being deleted...) occur too
+func genMeta(r *vh.Rng) metaT {
+	m := metaT{phase: vh.Pick(r, []int64{1, 1, 1, 2, 2, 2, 2, 3, 4, 5, 0})}
+	switch m.phase {
+	case 0, 1:
+		m.node = r.Chance(1, 2)
+	default:
+		m.node = !r.Chance(1, 8)
+	}
+	m.deleting = r.Chance(1, 5)
+	return m
 }
 
 func gen(rng *vh.Rng, n int, emit func(id string, sel int, in []int64, kind string, nontrivial bool, desc any)) {
@@ -898,7 +951,12 @@ func gen(rng *vh.Rng, n int, emit func(id string, sel int, in []int64, kind stri
 					p.is = append(p.is, contT{name: int64(2 + i), sidecar: mask>>uint(i)&1 == 1,
 						req: rlT{{2, a}, {3, qty{a.v * 48 * Mi, 0}}, {5, qty{a.v - 1, 0}}}})
 				}
-				one(fmt.Sprintf("interleave-%d", k), "valid/interleavings", caseT{ippvs: true, plr: true, ippl: true, pod: p})
+				// every lifecycle position NewTaskInfo can see the pod in: all six phases; bound
+				// unless "" / Pending-unscheduled; a deletion timestamp on every third pod
+				for ph := int64(0); ph < int64(len(phases)); ph++ {
+					m := metaT{phase: ph, node: ph >= 2 || (ph == 1 && k%2 == 0), deleting: (k+int(ph))%3 == 0}
+					one(fmt.Sprintf("interleave-%d-%s", k, phaseName(ph)), "valid/interleavings", caseT{ippvs: true, plr: true, ippl: true, meta: m, pod: p})
+				}
 				k++
 			}
 		}
@@ -909,6 +967,7 @@ func gen(rng *vh.Rng, n int, emit func(id string, sel int, in []int64, kind stri
 			c := caseT{ippvs: true}
 			c.plr, c.ippl, c.dra = genGates(r)
 			c.pod = genPod(r, g)
+			c.meta = genMeta(r)
 			if fixGates != nil {
 				fixGates(&c)
 			}
